@@ -6,6 +6,7 @@ use crate::monitors::{Flags, Mon};
 use crate::rng::Rng;
 use crate::sched::{Actor, Arrival, Sched, Status, ACTOR, POL, PROC};
 use crate::trace::Trace;
+use std::collections::HashMap;
 use std::hash::{Hash, Hasher};
 use std::sync::mpsc;
 use std::sync::{Arc, Mutex};
@@ -61,15 +62,20 @@ impl Coster for Co {
 }
 
 pub struct Va(pub u8);
-impl UpdateValidator for Va {
-    type Value = u64;
-    fn should_update(&self, prev: &u64, curr: &u64) -> bool {
+impl Va {
+    pub fn allows(&self, prev: u64, curr: u64) -> bool {
         match self.0 {
             0 => true,
             1 => false,
             2 => curr > prev,
             _ => curr % 3 != prev % 3,
         }
+    }
+}
+impl UpdateValidator for Va {
+    type Value = u64;
+    fn should_update(&self, prev: &u64, curr: &u64) -> bool {
+        self.allows(*prev, *curr)
     }
 }
 
@@ -551,6 +557,9 @@ impl Case {
             self.tick_since_quiescent = true;
         }
         self.mon.callbacks(&cbv, &before, now, line);
+        if line.starts_with("pr ") {
+            self.mon.processor_rewrite(&before, &after);
+        }
         if line.starts_with("pr") && self.proc_prev_at == "proc:tick:key" && at == "proc:tick:after_policy" {
             self.mon.sweep_decision(&before, &after, now);
         }
@@ -1020,6 +1029,166 @@ impl Case {
         }
         drop(self.jobs);
     }
+}
+
+/// Real parallelism (no scheduler): the model treats the code between two scheduling points as one
+/// atomic step; that is an assumption about the locks in /repo, and the interleaved suites run one
+/// actor at a time, so they cannot see it fail.  Here free-running client threads hammer caches of
+/// both flavours and, once everybody has returned and a wait() marker has gone through, the
+/// conservation laws the theorems give for *every* interleaving of atomic steps are checked on the
+/// quiescent cache: every lookup is in exactly one place (kept, dropped, or still in the ring; C15 /
+/// C17), hits + misses = lookups (C17), resident = charged (C06), counters = charges (C17), every
+/// accepted value is resident or was handed back exactly once (C08).  Not compared with the model.
+pub fn suite_stress(t: &mut Trace, seed: u64, rounds: u64) -> String {
+    use std::sync::atomic::{AtomicU64, Ordering as AO};
+    stretto::verif::install(None);
+    verif::set_sync_ticker(None);
+    verif::set_async_ticker(None);
+    let mut fails: Vec<(&str, u64, String)> = Vec::new();
+    let mut rng = Rng::new(seed ^ 0x5712_e55);
+    let mut total_ops = 0u64;
+    for round in 0..rounds {
+        let is_async = round % 2 == 1;
+        let buffer_items = *rng.pick(&[1usize, 3, 4, 16, 64]);
+        let buf_cap = *rng.pick(&[2usize, 8, 64]);
+        let max_cost = *rng.pick(&[6i64, 20, 1000]);
+        let nthreads = rng.range(2, 6) as usize;
+        let nkeys = rng.range(4, 14);
+        let per_thread = 1500u64;
+        verif::clock::set_ns(1_700_000_000_000_000_000);
+        let cb = Cb::default();
+        let ck = Arc::new(if is_async {
+            CK::A(AsyncCacheBuilder::new_with_key_builder(64, max_cost, TableKB)
+                .set_coster(Co(0)).set_update_validator(Va(0)).set_callback(cb.clone())
+                .set_metrics(true).set_ignore_internal_cost(true)
+                .set_buffer_size(buf_cap).set_buffer_items(buffer_items)
+                .set_hasher(SeedBH(seed ^ round))
+                .finalize(spawner).expect("async cache"))
+        } else {
+            CK::S(CacheBuilder::new_with_key_builder(64, max_cost, TableKB)
+                .set_coster(Co(0)).set_update_validator(Va(0)).set_callback(cb.clone())
+                .set_metrics(true).set_ignore_internal_cost(true)
+                .set_buffer_size(buf_cap).set_buffer_items(buffer_items)
+                .set_hasher(SeedBH(seed ^ round))
+                .finalize().expect("sync cache"))
+        });
+        t.case(round, "stress");
+        let lookups = Arc::new(AtomicU64::new(0));
+        let accepted: Arc<Mutex<Vec<u64>>> = Arc::new(Mutex::new(Vec::new()));
+        let mut hs = Vec::new();
+        for th in 0..nthreads {
+            let ck = ck.clone();
+            let lookups = lookups.clone();
+            let accepted = accepted.clone();
+            let mut r = Rng::new(seed.wrapping_mul(31).wrapping_add(round * 97 + th as u64));
+            hs.push(std::thread::spawn(move || {
+                let mut mine = Vec::new();
+                for i in 0..per_thread {
+                    let idx = r.range(1, nkeys);
+                    match r.below(10) {
+                        0..=5 => {
+                            let _ = do_op(&ck, &Op::Get { idx, conf: 0 });
+                            lookups.fetch_add(1, AO::SeqCst);
+                        }
+                        6..=8 => {
+                            let val = 1_000_000 * (th as u64 + 1) + i;
+                            let cost = r.range(1, 4) as i64;
+                            if do_op(&ck, &Op::Insert { idx, conf: 0, val, cost, ttl_ns: 0, only: false }) == "true" {
+                                mine.push(val);
+                            }
+                        }
+                        _ => {
+                            let _ = do_op(&ck, &Op::Remove { idx, conf: 0 });
+                        }
+                    }
+                }
+                accepted.lock().unwrap().extend(mine);
+            }));
+        }
+        let mut panicked = false;
+        for h in hs {
+            panicked |= h.join().is_err();
+        }
+        total_ops += nthreads as u64 * per_thread;
+        let fl = if is_async { "async" } else { "sync" };
+        if panicked {
+            fails.push(("C20", round, format!("{}: a client thread panicked under parallel load", fl)));
+        }
+        // quiesce: two markers through the buffer, then let the policy worker drain its queue
+        // (a wait() that finds the buffer full reports an error and is no barrier: ask again)
+        let mut barriers = 0;
+        let t0 = Instant::now();
+        while barriers < 2 && t0.elapsed() < Duration::from_secs(20) {
+            if do_op(&ck, &Op::Wait) == "ok" {
+                barriers += 1;
+            } else {
+                std::thread::sleep(Duration::from_millis(1));
+            }
+        }
+        if barriers < 2 {
+            fails.push(("C10", round, format!("{}: wait() did not return Ok within 20 s on an idle cache", fl)));
+        }
+        let mut s = snapshot(&ck);
+        for _ in 0..200 {
+            if s.pol_queue_len == 0 && s.buf_len == 0 {
+                break;
+            }
+            std::thread::sleep(Duration::from_millis(5));
+            s = snapshot(&ck);
+        }
+        let m = s.metrics.unwrap_or([0; 11]);
+        let l = lookups.load(AO::SeqCst);
+        let cfgs = format!("{} buffer_items={} buffer={} max_cost={} threads={} keys={}", fl, buffer_items, buf_cap, max_cost, nthreads, nkeys);
+        if m[0] + m[1] != l {
+            fails.push(("C17", round, format!("{}: hits {} + misses {} != {} lookups made by free-running threads", cfgs, m[0], m[1], l)));
+        }
+        if m[9] + m[10] + s.ring.len() as u64 != l {
+            let msg = format!("{}: gets_kept {} + gets_dropped {} + {} still in the ring != {} lookups: a batch was accounted twice or lost", cfgs, m[10], m[9], s.ring.len(), l);
+            fails.push(("C15", round, msg.clone()));
+            fails.push(("C17", round, msg));
+        }
+        let mut res: Vec<u64> = s.store.iter().map(|e| e.index).collect();
+        let mut chg: Vec<u64> = s.policy.key_costs.iter().map(|(k, _)| *k).collect();
+        res.sort();
+        chg.sort();
+        if res != chg {
+            fails.push(("C06", round, format!("{}: at quiescence after parallel load resident keys {:?} differ from charged keys {:?}", cfgs, res, chg)));
+        }
+        let used: i64 = s.policy.key_costs.iter().map(|(_, c)| *c).sum();
+        if used != s.policy.used {
+            fails.push(("C01", round, format!("{}: charged total {} is not the sum of the charges {}", cfgs, s.policy.used, used)));
+        }
+        if m[2].wrapping_sub(m[4]) != chg.len() as u64 || m[5].wrapping_sub(m[6]) != s.policy.used as u64 {
+            fails.push(("C17", round, format!("{}: keys_added {} - keys_evicted {} vs {} charged entries, cost_added {} - cost_evicted {} vs charged total {}", cfgs, m[2], m[4], chg.len(), m[5], m[6], s.policy.used)));
+        }
+        // C08: one place per accepted value
+        let mut handed: HashMap<u64, u32> = HashMap::new();
+        for c in cb.0.lock().unwrap().iter() {
+            let parts: Vec<&str> = c.split(':').collect();
+            let v = match parts[0] { "exit" => parts[1].parse::<u64>().ok(), _ => parts[3].parse::<u64>().ok() };
+            if let Some(v) = v {
+                *handed.entry(v).or_default() += 1;
+            }
+        }
+        let resident: std::collections::HashSet<u64> = s.store.iter().map(|e| e.value).collect();
+        for v in accepted.lock().unwrap().iter() {
+            let n = handed.get(v).copied().unwrap_or(0) + if resident.contains(v) { 1 } else { 0 };
+            if n != 1 {
+                fails.push(("C08", round, format!("{}: value {} accepted by an insert is in {} places at quiescence (resident: {}, callbacks: {})", cfgs, v, n, resident.contains(v), handed.get(v).copied().unwrap_or(0))));
+                break;
+            }
+        }
+        t.step(&format!("stress {}", cfgs));
+        t.mark_nontrivial();
+        let _ = do_op(&ck, &Op::Close);
+    }
+    let mut seen = std::collections::HashSet::new();
+    for (prop, round, msg) in &fails {
+        if seen.insert((*prop, msg.clone())) {
+            println!("MONITOR property={} case={} msg={}", prop, round, msg.replace(' ', "_"));
+        }
+    }
+    format!(",\"model\":false,\"parallel_ops\":{},\"conservation_checks_failed\":{}", total_ops, fails.len())
 }
 
 /// C05 / C20: the real cleanup ticker (crossbeam `tick`, async-io `Timer::interval`), which every other
